@@ -167,11 +167,13 @@ def find_sinks(fn, length_fields=(), compare=False, taint=None):
                 for o in i.o:
                     oi = fn.get(o) if isinstance(o, str) else None
                     if oi is not None and oi.op in ARITH:
+                        if oi.op == 'sub' and i.pred in ('eq', 'ne'):
+                            continue    # a wrapped difference cannot change the outcome of an (in)equality test against a bound
                         sinks.append((i, o, 'operand of the branch condition at line %d' % i.line))
     return sinks
 
 
-def check_entry(fn, rule, length_fields=(), compare=False, label=None, sub_in_compare=True):
+def check_entry(fn, rule, length_fields=(), compare=False, label=None, sub_in_compare=True, exempt=None):
     """run the no-wrap rule on one entry point; returns number of obligations"""
     tnt = tainted(fn)
     pv = Prover(fn)
@@ -184,9 +186,15 @@ def check_entry(fn, rule, length_fields=(), compare=False, label=None, sub_in_co
                 continue
             if (ins.x.get('bits') or 64) != 64 or ins.x.get('nsw'):
                 continue
-            if ins.op == 'sub' and not (kind.startswith('operand of the branch') and sub_in_compare):
+            if ins.op == 'sub' and not (kind.startswith('operand of the branch') and sub_in_compare and ins.ref == opnd):
                 continue
             if ins.id in done:
+                continue
+            why = exempt(ins) if exempt else None
+            if why:
+                done[ins.id] = 'PASS'
+                n += 1
+                rule.ok(('%s:%s:%s' % (label or fn.name, ins.srcfn, describe(fn, ins.ref))).replace(' ', ''), 'exempt: ' + why, ins.loc())
                 continue
             verdict, text = check_op(fn, pv, ins)
             done[ins.id] = verdict
